@@ -159,6 +159,10 @@ def run_ticks(role, ticks, artim=ARTIM):
         if d['n'] != 'idle' and p.dul_socket is not None:
             if d['n'] == 'eof':
                 sock.feed('EOF')
+            elif d['n'] == 'part':
+                # the head of a PDU whose rest never arrives (histories carry no peer data after it)
+                conc.k += 1
+                sock.feed(pdu.AReleaseRqPDU().encode()[:(1, 5, 6, 7, 9)[conc.k % 5]])
             else:
                 reach = p.state in (6, 7) and not p.raw_pdu and not p.event
                 seg = b''
